@@ -4,7 +4,7 @@ import datetime
 from harness.common import EX, TIMES, KIND_NAMES, add_record, formal, is_time_attr, kind_type
 
 FLOATS = [0.1, 1e300, -0.0, 1.2345678901234567, 5.0]
-ATTR_NAMES = ["ex:k", "prov:type", "prov:label", "prov:value", "prov:location", "prov:role"]
+ATTR_NAMES = ["ex:k", "prov:type", "prov:label", "prov:value", "prov:location", "prov:role", "k"]  # "k": name in the default namespace
 VALUE_KINDS = ["str", "int", "bool", "float", "datetime", "qname", "qname_other_prefix", "uri", "lang_literal",
                "foreign_literal", "typed_int_literal", "multi_str_int", "multi_qname", "empty_str", "big_text"]
 NS_MODES = ["plain", "doc_default", "bundle_default", "clash_prefix", "bundle_own_prefix"]
@@ -106,6 +106,8 @@ def values_doc(ctx, attr_idx, vk, ns_mode, in_bundle, strlen=2, text_kind="any")
         uri_guard(ctx, uris)
     vals = make_value(ctx, d, vk, strlen, text_kind)
     attr = ATTR_NAMES[attr_idx]
+    if attr == "k" and mode not in ("doc_default", "bundle_default"):
+        attr = "ex:k"  # an unprefixed attribute name needs a default namespace
     ident = "e1" if mode in ("doc_default", "bundle_default") else "ex:e1"
     target.entity(ident, [(attr, v) for v in vals])
     shadow_guard(ctx, d)
